@@ -51,7 +51,6 @@ Definition taskpool_members : list member :=
     MFun "_task_ending" [{| pa_name := "task_id"; pa_kind := PPos; pa_default := false; pa_ann := AInt |}; {| pa_name := "custom_callback"; pa_kind := PPos; pa_default := true; pa_ann := APath |}];
     MFun "_task_name" [{| pa_name := "task_id"; pa_kind := PPos; pa_default := false; pa_ann := AInt |}];
     MFun "_task_wrapper" [{| pa_name := "awaitable"; pa_kind := PPos; pa_default := false; pa_ann := AUnknown |}; {| pa_name := "task_id"; pa_kind := PPos; pa_default := false; pa_ann := AInt |}; {| pa_name := "end_callback"; pa_kind := PPos; pa_default := true; pa_ann := APath |}; {| pa_name := "cancel_callback"; pa_kind := PPos; pa_default := true; pa_ann := APath |}];
-    MOther "_tasks_unstarted";
     MFun "apply" [{| pa_name := "func"; pa_kind := PPos; pa_default := false; pa_ann := APath |}; {| pa_name := "args"; pa_kind := PPos; pa_default := true; pa_ann := ALiteral |}; {| pa_name := "kwargs"; pa_kind := PPos; pa_default := true; pa_ann := ALiteral |}; {| pa_name := "num"; pa_kind := PPos; pa_default := true; pa_ann := AInt |}; {| pa_name := "group_name"; pa_kind := PPos; pa_default := true; pa_ann := AStr |}; {| pa_name := "end_callback"; pa_kind := PPos; pa_default := true; pa_ann := APath |}; {| pa_name := "cancel_callback"; pa_kind := PPos; pa_default := true; pa_ann := APath |}];
     MFun "cancel" [{| pa_name := "task_ids"; pa_kind := PVarPos; pa_default := false; pa_ann := AInt |}; {| pa_name := "msg"; pa_kind := PKwOnly; pa_default := true; pa_ann := AStr |}];
     MFun "cancel_all" [{| pa_name := "msg"; pa_kind := PPos; pa_default := true; pa_ann := AStr |}];
@@ -125,7 +124,6 @@ Definition simplepool_members : list member :=
     MFun "_task_ending" [{| pa_name := "task_id"; pa_kind := PPos; pa_default := false; pa_ann := AInt |}; {| pa_name := "custom_callback"; pa_kind := PPos; pa_default := true; pa_ann := APath |}];
     MFun "_task_name" [{| pa_name := "task_id"; pa_kind := PPos; pa_default := false; pa_ann := AInt |}];
     MFun "_task_wrapper" [{| pa_name := "awaitable"; pa_kind := PPos; pa_default := false; pa_ann := AUnknown |}; {| pa_name := "task_id"; pa_kind := PPos; pa_default := false; pa_ann := AInt |}; {| pa_name := "end_callback"; pa_kind := PPos; pa_default := true; pa_ann := APath |}; {| pa_name := "cancel_callback"; pa_kind := PPos; pa_default := true; pa_ann := APath |}];
-    MOther "_tasks_unstarted";
     MFun "cancel" [{| pa_name := "task_ids"; pa_kind := PVarPos; pa_default := false; pa_ann := AInt |}; {| pa_name := "msg"; pa_kind := PKwOnly; pa_default := true; pa_ann := AStr |}];
     MFun "cancel_all" [{| pa_name := "msg"; pa_kind := PPos; pa_default := true; pa_ann := AStr |}];
     MFun "cancel_group" [{| pa_name := "group_name"; pa_kind := PPos; pa_default := false; pa_ann := AStr |}; {| pa_name := "msg"; pa_kind := PPos; pa_default := true; pa_ann := AStr |}];
